@@ -35,22 +35,20 @@ ChildPath(c, n) == Append(c, [n |-> n.sp[Len(n.sp)], k |-> << >>])
 \* are not inside a choice of that container
 ReqDefaults(DS, T, S) ==
     LET new == { c \in Created(T, S) : IsEntry(c) \/ KindOf(DS, c) = "container" }
-        items == { <<c, n>> \in { <<c, n>> : c \in new, n \in SNodes(DS) } :
-                      /\ n \in LeafChildren(DS, c)
+        items == UNION { { <<c, n>> : n \in { n \in LeafChildren(DS, c) :
                       /\ n.dflt # << >>
                       /\ Len(n.cases) = Len(SNode(DS, SPath(c)).cases)
-                      /\ ChildPath(c, n) \notin DOMAIN S.leaf }
+                      /\ ChildPath(c, n) \notin DOMAIN S.leaf } } : c \in new }
     IN [ p \in { ChildPath(it[1], it[2]) : it \in items } |->
            (CHOOSE it \in items : ChildPath(it[1], it[2]) = p)[2].dflt ]
 
 \* defaults a created container MAY receive: leaves with a default inside a case
 OptDefaults(DS, T, S) ==
     LET new == { c \in Created(T, S) : IsEntry(c) \/ KindOf(DS, c) = "container" }
-        items == { <<c, n>> \in { <<c, n>> : c \in new, n \in SNodes(DS) } :
-                      /\ n \in LeafChildren(DS, c)
+        items == UNION { { <<c, n>> : n \in { n \in LeafChildren(DS, c) :
                       /\ n.dflt # << >>
                       /\ Len(n.cases) > Len(SNode(DS, SPath(c)).cases)
-                      /\ ChildPath(c, n) \notin DOMAIN S.leaf }
+                      /\ ChildPath(c, n) \notin DOMAIN S.leaf } } : c \in new }
     IN [ p \in { ChildPath(it[1], it[2]) : it \in items } |->
            (CHOOSE it \in items : ChildPath(it[1], it[2]) = p)[2].dflt ]
 
